@@ -188,10 +188,10 @@ func (permissive) CanProcessMessagesOnTopic(_ core.PeerID, _ string, _ uint32, _
 	return nil
 }
 func (permissive) BlacklistPeer(_ core.PeerID, _ string, _ time.Duration) {}
-func (permissive) CanProcess() bool                                         { return true }
-func (permissive) StartProcessing()                                         {}
-func (permissive) EndProcessing()                                           {}
-func (permissive) IsInterfaceNil() bool                                     { return false }
+func (permissive) CanProcess() bool                                       { return true }
+func (permissive) StartProcessing()                                       {}
+func (permissive) EndProcessing()                                         {}
+func (permissive) IsInterfaceNil() bool                                   { return false }
 
 func msDelay(rr *simkit.Rand, max int64) time.Duration {
 	return time.Duration(1+rr.Int63n(max))*time.Millisecond + msgShift
@@ -344,7 +344,9 @@ func (r *run) deliverResponse(e *event) {
 	for _, buf := range b.Data {
 		var node *trie.InterceptedTrieNode
 		var err error
-		r.guarded(kind, func() string { return fmt.Sprintf("NewInterceptedTrieNode/CheckValidity on %d bytes %x from peer %d", len(buf), clip(buf, 96), p.id) }, func() {
+		r.guarded(kind, func() string {
+			return fmt.Sprintf("NewInterceptedTrieNode/CheckValidity on %d bytes %x from peer %d", len(buf), clip(buf, 96), p.id)
+		}, func() {
 			node, err = trie.NewInterceptedTrieNode(buf, triekit.Marshalizer, triekit.Hasher)
 			if err == nil {
 				err = node.CheckValidity()
